@@ -1,4 +1,5 @@
 //! C02 (assertions) and C03 (inference): the shared ledger generator with other biases.
+use crate::cli;
 use crate::coq::{self, Shards, Stats};
 use crate::diag::{self, Diag};
 use crate::ledger::*;
@@ -74,9 +75,155 @@ fn non_ascii_before(r: &Rendered, entry: usize, posting: usize) -> usize {
     r.text.as_bytes()[start.min(end)..end].iter().filter(|b| **b >= 0x80).count()
 }
 
+// ---------- the commands a user runs, with every option that reaches report::process or the query ----------
+
+#[derive(Clone, Debug, PartialEq)]
+enum VRes {
+    Ok,
+    Assert { entry: usize, posting: usize, computed: AmountObs, diff: AmountObs },
+    Other { title: u32, entry: usize },
+    Query,
+    Panic,
+}
+
+struct Variant {
+    args: Vec<String>,
+    /// a conversion was asked for: the command may fail in the query for want of a rate
+    conv: bool,
+    res: VRes,
+    stderr: String,
+}
+
+fn iso(d: i32) -> String {
+    day_to_date(d).format("%Y-%m-%d").to_string()
+}
+
+/// option sets for one ledger: date bounds before / on / between / after the transaction dates,
+/// conversion targets, both strategies, report dates - alone and combined
+fn option_sets(rv: &mut Rng, entries: &[Entry], st: &mut Stats) -> Vec<(Vec<String>, bool)> {
+    let mut dates: Vec<i32> = entries.iter().filter_map(|e| if let Entry::Txn(t) = e { Some(t.date) } else { None }).collect();
+    let in_order = dates.windows(2).all(|w| w[0] <= w[1]);
+    st.count(if in_order { "cmd:ledger_in_date_order" } else { "cmd:ledger_not_in_date_order" });
+    dates.sort();
+    dates.dedup();
+    let lo = *dates.first().unwrap_or(&0);
+    let hi = *dates.last().unwrap_or(&0);
+    let mid = dates.get(dates.len() / 2).copied().unwrap_or(lo);
+    let comm = |rv: &mut Rng| COMMODITIES[rv.below(COMMODITIES.len() as u64) as usize].to_string();
+    let o = |xs: &[&str]| xs.iter().map(|x| x.to_string()).collect::<Vec<String>>();
+    let mut out: Vec<(Vec<String>, bool)> = vec![
+        (vec![], false),
+        (o(&["--end", &iso(lo - 3)]), false),
+        (o(&["--end", &iso(lo)]), false),
+        (o(&["--end", &iso(mid)]), false),
+        (o(&["--end", &iso(hi)]), false),
+        (o(&["--end", &iso(hi + 1)]), false),
+        (o(&["--start", &iso(hi + 1)]), false),
+        (o(&["--start", &iso(mid)]), false),
+        (o(&["--start", &iso(mid), "--end", &iso(mid + 1)]), false),
+        (o(&["--start", &iso(hi), "--end", &iso(lo)]), false),
+        (o(&["--now", &iso(lo - 3)]), false),
+        (o(&["--now", &iso(mid)]), false),
+        (o(&["-X", &comm(rv)]), true),
+        (o(&["-X", &comm(rv), "--historical"]), true),
+        (o(&["-X", &comm(rv), "--now", &iso(mid)]), true),
+        (o(&["--historical"]), false),
+    ];
+    for _ in 0..3 {
+        let mut a = Vec::new();
+        let mut conv = false;
+        let any = |rv: &mut Rng| -> i32 {
+            match rv.below(4) {
+                0 => lo - 1 - rv.below(5) as i32,
+                1 => hi + 1 + rv.below(5) as i32,
+                2 => *rv.pick(&dates[..]),
+                _ => lo + rv.below((hi - lo + 1) as u64) as i32,
+            }
+        };
+        if dates.is_empty() {
+            break;
+        }
+        if rv.chance(1, 2) {
+            a.push("--start".to_string());
+            a.push(iso(any(rv)));
+        }
+        if rv.chance(2, 3) {
+            a.push("--end".to_string());
+            a.push(iso(any(rv)));
+        }
+        if rv.chance(1, 2) {
+            a.push("-X".to_string());
+            a.push(comm(rv));
+            conv = true;
+        }
+        if rv.chance(1, 3) {
+            a.push("--historical".to_string());
+        }
+        if rv.chance(1, 3) {
+            a.push("--now".to_string());
+            a.push(iso(any(rv)));
+        }
+        out.push((a, conv));
+    }
+    out
+}
+
+fn run_variants(rv: &mut Rng, scratch: &cli::Scratch, entries: &[Entry], r: &Rendered, names: &Names, st: &mut Stats) -> Vec<Variant> {
+    let path = scratch.write("c02.ledger", &r.text);
+    let path = path.to_string_lossy().to_string();
+    let mut out = Vec::new();
+    for (opts, conv) in option_sets(rv, entries, st) {
+        for cmd in ["balance", "register"] {
+            let mut args: Vec<String> = vec![cmd.to_string(), path.clone()];
+            args.extend(opts.iter().cloned());
+            let a: Vec<&str> = args.iter().map(|x| x.as_str()).collect();
+            let res = cli::run(&a);
+            let v = if res.ok {
+                VRes::Ok
+            } else if res.panicked {
+                VRes::Panic
+            } else {
+                match diag::read_cmd_error(&res.stderr, r, &names.commodities) {
+                    diag::CmdErr::Assert { entry, posting, computed, diff } => VRes::Assert { entry, posting, computed, diff },
+                    diag::CmdErr::Other { title, entry } => VRes::Other { title, entry },
+                    diag::CmdErr::NoBookKeeping => VRes::Query,
+                }
+            };
+            st.count("cmd:runs");
+            st.count(&format!("cmd:{}", cmd));
+            for k in ["--start", "--end", "-X", "--historical", "--now"] {
+                if opts.iter().any(|x| x == k) {
+                    st.count(&format!("cmd:with {}", k));
+                }
+            }
+            st.count(match &v {
+                VRes::Ok => "cmd:result:ok",
+                VRes::Assert { .. } => "cmd:result:assertion_failure",
+                VRes::Other { .. } => "cmd:result:other_book_keeping_error",
+                VRes::Query => "cmd:result:query_failed",
+                VRes::Panic => "cmd:result:panic",
+            });
+            args[1] = "<file>".into();
+            out.push(Variant { args, conv, res: v, stderr: if res.ok { String::new() } else { diag::strip_ansi(&res.stderr) } });
+        }
+    }
+    out
+}
+
+fn variant_term(v: &Variant) -> String {
+    let r = match &v.res {
+        VRes::Ok => "VOk".to_string(),
+        VRes::Assert { entry, posting, computed, diff } => format!("(VAssert {} {} {} {})", entry, posting, amount_term(computed), amount_term(diff)),
+        VRes::Other { title, entry } => format!("(VOther {} {})", title, entry),
+        VRes::Query => "VQuery".to_string(),
+        VRes::Panic => "VPanic".to_string(),
+    };
+    format!("({}, {})", if v.conv { "true" } else { "false" }, r)
+}
+
 /// C02: as `emit_ledger_case`, on a decorated rendering, and with the rendered diagnostic of
 /// a failed assertion read back to postings: case `CD entries obs diag`
-fn emit_c02(sh: &mut Shards, st: &mut Stats, entries: &[Entry], deco: &Deco, nontrivial: &dyn Fn(&Shape, &Obs) -> bool, tag: &str) {
+fn emit_c02(sh: &mut Shards, st: &mut Stats, cmd: &mut (Rng, &cli::Scratch), entries: &[Entry], deco: &Deco, nontrivial: &dyn Fn(&Shape, &Obs) -> bool, tag: &str) {
     let r = render_deco(entries, deco);
     let names = Names::default_names();
     let files = [("/main.ledger".to_string(), r.text.clone())];
@@ -111,6 +258,7 @@ fn emit_c02(sh: &mut Shards, st: &mut Stats, entries: &[Entry], deco: &Deco, non
         Diag::Wide => "diag:excerpt_cut_not_read",
         Diag::Seen(_) => "diag:read_back",
     });
+    let variants = run_variants(&mut cmd.0, cmd.1, entries, &r, &names, st);
     let s = shape(entries);
     st.eval(&r.text, nontrivial(&s, &o));
     st.count(&obs_kind(&o));
@@ -142,7 +290,17 @@ fn emit_c02(sh: &mut Shards, st: &mut Stats, entries: &[Entry], deco: &Deco, non
     if st.samples.len() < 3 || (st.samples.len() < 6 && matches!(o, Obs::Err { .. })) {
         st.sample(rep.clone(), 6);
     }
-    let term = format!("CD {} {} {}", coq::list(entries.iter().map(entry_term)), obs_term(&o), diag::diag_term(&d));
+    rep["impl"]["commands"] = serde_json::json!(variants
+        .iter()
+        .map(|v| serde_json::json!({"args": v.args.join(" "), "result": format!("{:?}", v.res), "stderr": v.stderr}))
+        .collect::<Vec<_>>());
+    let term = format!(
+        "CDV {} {} {} {}",
+        coq::list(entries.iter().map(entry_term)),
+        obs_term(&o),
+        diag::diag_term(&d),
+        coq::list(variants.iter().map(variant_term))
+    );
     sh.push(term, vec![rep]);
 }
 
@@ -152,7 +310,7 @@ pub fn run(o: &Opts, prop: &str) {
     let mut sh = Shards::new(&o.out, o.shards, &header(classify));
     let is02 = prop == "C02";
     st.rule = if is02 {
-        "generated ledgers with raised assertion density (several per account per transaction, after assignments and omitted postings, multi-commodity accounts, `= 0` vs `= 0 X`, negative balances; 1 in 8 assertions false) + fixed boundary ledgers; three ledgers in four are written with text outside ASCII that the book-keeping never reads (payees, codes, comment lines under the header and under postings, trailing comments, comment entries: two-, three- and four-byte characters, double-width and combining ones) and/or with account names outside ASCII; for every failed assertion the rendered error (Display of ReportError) is read back - excerpt, `--> line:col`, the two labelled markers, the balances of title and label - and related to postings of the ledger text; non-trivial = at least one assertion was evaluated (the ledger carries one and processing reached it); distinct by ledger text".to_string()
+        "generated ledgers with raised assertion density (several per account per transaction, after assignments and omitted postings, multi-commodity accounts, `= 0` vs `= 0 X`, negative balances; 1 in 8 assertions false) + fixed boundary ledgers; three ledgers in four are written with text outside ASCII that the book-keeping never reads (payees, codes, comment lines under the header and under postings, trailing comments, comment entries: two-, three- and four-byte characters, double-width and combining ones) and/or with account names outside ASCII; for every failed assertion the rendered error (Display of ReportError) is read back - excerpt, `--> line:col`, the two labelled markers, the balances of title and label - and related to postings of the ledger text; every ledger is also written to a file and given to `okane balance` and `okane register` (cli::run, the code of the binary's main) under 19 option sets each - none; --end / --start three days before the first date, on the first, a middle and the last date, a day after the last; start>end; --now before and inside; -X C, -X C --historical, -X C --now; --historical alone; three random combinations of --start/--end/-X/--historical/--now - and every run must accept or reject as the plain run does: a rejected ledger with the same title, the `--> line:col` of the same posting's `= X`, the same computed balance and difference (a conversion may fail in the query of an accepted ledger only); one ledger in four has its dates dealt out again in another order (cmd:* counts); non-trivial = at least one assertion was evaluated (the ledger carries one and processing reached it); distinct by ledger text".to_string()
     } else {
         "generated ledgers biased to an omitted-amount or assignment posting at every position among 1-5 others with costs/lots/several commodities (one cost or lot price in four written with a minus sign: `@@ -1,000 USD`, `{{-5 EUR}}`, `@ -2 USD`), after a history giving the assigned account 0/1/2 commodities + fixed boundary ledgers; three ledgers in four written with text and account names outside ASCII as in C02; every rejected ledger's error is rendered as the user sees it and read back - title, location, excerpt lines, every labelled marker - and must name the entry and posting(s) the model says fail (diag:* counts); non-trivial = the ledger has an omitted or assigned posting and is not rejected before reaching it; distinct by ledger text".to_string()
     };
@@ -166,11 +324,14 @@ pub fn run(o: &Opts, prop: &str) {
         let has = if is02 { s.asserted > 0 } else { s.omitted + s.assigned > 0 };
         has && !matches!(o, Obs::Err { err: ErrObs::Eval(_), .. } | Obs::Err { err: ErrObs::Other(_), .. })
     };
+    let scratch = cli::Scratch::new(if is02 { "c02" } else { "c03" });
+    // the options of the command runs: their own stream
+    let mut cmd = (Rng::new(o.seed, 1202), &scratch);
     let (corpus, replay) = corpus_entries(&o.corpus, &o.extra);
     let decos = corpus_decos(&o.corpus, &o.extra);
     for (k, es) in corpus.iter().enumerate() {
         if is02 {
-            emit_c02(&mut sh, &mut st, es, decos.get(k).unwrap_or(&Deco::default()), &nontrivial, "corpus");
+            emit_c02(&mut sh, &mut st, &mut cmd, es, decos.get(k).unwrap_or(&Deco::default()), &nontrivial, "corpus");
         } else {
             emit_ledger_case(&mut sh, &mut st, prop, es, decos.get(k).unwrap_or(&Deco::default()), &nontrivial, "corpus");
         }
@@ -180,7 +341,7 @@ pub fn run(o: &Opts, prop: &str) {
             // each fixed ledger in its own header / sample-number shape
             vary_shapes_nth(&mut es, n);
             if is02 {
-                emit_c02(&mut sh, &mut st, &es, &Deco::default(), &nontrivial, "fixed");
+                emit_c02(&mut sh, &mut st, &mut cmd, &es, &Deco::default(), &nontrivial, "fixed");
             } else {
                 emit_ledger_case(&mut sh, &mut st, prop, &es, &Deco::default(), &nontrivial, "fixed");
             }
@@ -209,9 +370,22 @@ pub fn run(o: &Opts, prop: &str) {
                 b.neg_exch_pct = 25;
             }
             let mut es = gen_ledger(&mut r, &b);
+            if is02 && cmd.0.chance(1, 4) {
+                // the dates of the transactions dealt out again in another order (the book-keeping
+                // reads the file top to bottom whatever the dates say)
+                let mut ds: Vec<i32> = es.iter().filter_map(|e| if let Entry::Txn(t) = e { Some(t.date) } else { None }).collect();
+                cmd.0.shuffle(&mut ds);
+                let mut it = ds.into_iter();
+                for e in es.iter_mut() {
+                    if let Entry::Txn(t) = e {
+                        t.date = it.next().unwrap();
+                    }
+                }
+                st.count("gen:dates_dealt_out_again");
+            }
             let deco = decorate(&mut rd, &mut es);
             if is02 {
-                emit_c02(&mut sh, &mut st, &es, &deco, &nontrivial, "random");
+                emit_c02(&mut sh, &mut st, &mut cmd, &es, &deco, &nontrivial, "random");
             } else {
                 emit_ledger_case(&mut sh, &mut st, prop, &es, &deco, &nontrivial, "random");
             }
